@@ -1506,6 +1506,12 @@ class ConfigInformation:
                     for pre_task_id in definition.get("pre-tasks", [])
                 ]
 
+                # Sets init tasks
+                o.__xpm__.init_tasks = [
+                    objects[init_task_id]
+                    for init_task_id in definition.get("init-tasks", [])
+                ]
+
                 if task_id := definition.get("task", None):
                     o.__xpm__.task = objects[task_id]
 
